@@ -246,8 +246,12 @@ def run(cx):
         rs = deep_payload(resp)          # `Ok(x)?` round trips of an extracted helper are looked through
         # the written value must BE the unwrapped select output (not a phi / rebuilt response)
         ok = bool(var) and rs[0] == "call" and name_matches(rs[1], ("Result::expect", "Result::unwrap", "Result::into_ok", "Result::unwrap_or_else"))
+        unwrapped = rs[2][0] if ok else None
+        if not ok and bool(var) and rs[0] == "field" and rs[2] == "0" and rs[1][0] == "variant" and rs[1][2] == "Ok":
+            # `match served { Ok(response) => response, Err(never) => match never {} }`: the Ok payload of the (infallible) result
+            ok, unwrapped = True, rs[1][1]
         if ok:
-            t_ = strip_identity(rs[2][0])
+            t_ = strip_identity(unwrapped)
             reached = False
             for _ in range(8):
                 if t_[0] == "variant" and t_[2].startswith("_"):
